@@ -56,6 +56,34 @@ type frame struct {
 type declFrame struct {
 	pats []modPat
 	top  string // allocation mark before the loop: younger cells are free to change
+	autoMaps map[string]bool // key-presence heaps whose cells were added to the frame automatically
+}
+
+// checkMapWrite: a map update/delete inside a loop whose declared frame names
+// maps of that key sort must hit one of the named map objects (or a map
+// allocated inside the loop).
+func (f *frame) checkMapWrite(b *ssa.BasicBlock, m Val, in string, pos token.Pos, what string) {
+	vc := f.vc
+	_, mp, _, _ := vc.mapHeaps(m.Typ)
+	for _, li := range f.sortedDeclLoops() {
+		df := f.declFrames[li]
+		if !li.blocks[b] || df.autoMaps[mp] {
+			continue
+		}
+		var ms []string
+		for _, p := range df.pats {
+			if p.sort != mp {
+				continue
+			}
+			if p.all {
+				ms = append(ms, "true")
+			} else if p.base != "" {
+				ms = append(ms, Eq(m.T, p.base))
+			}
+		}
+		ms = append(ms, App(">", App("rt", m.T), df.top))
+		vc.obligeIn(f, "loop-assigns", fmt.Sprintf("loop%d:%s", li.ordinal, what), in, Or(ms...), pos, "map write stays inside the loop's declared assigns frame")
+	}
 }
 
 // checkWrite emits, for every enclosing loop with a declared frame, the
@@ -649,6 +677,7 @@ func (f *frame) havocLoop(li *loopInfo, pre *State, guard string, entryIdx int) 
 		// declared frame one by one: their cells are added to it (exactly for a
 		// loop-invariant map value, for all maps of the type otherwise), so the
 		// havoc at the loop head covers them
+		autoMaps := map[string]bool{}
 		for b := range li.blocks {
 			for _, ins := range b.Instrs {
 				var mval ssa.Value
@@ -666,6 +695,16 @@ func (f *frame) havocLoop(li *loopInfo, pre *State, guard string, entryIdx int) 
 					continue
 				}
 				mps := vc.mapModPats(mval.Type())
+				declared := false
+				for _, p := range pats {
+					if p.sort == mps[1].sort {
+						declared = true // the loop's own assigns clause names maps of this key sort: writes are checked against it
+					}
+				}
+				if declared {
+					continue
+				}
+				autoMaps[mps[1].sort] = true
 				if v, done := f.vals[mval]; done && !li.blocks[blockOf(mval)] {
 					for i := range mps {
 						mps[i].all = false
@@ -678,7 +717,7 @@ func (f *frame) havocLoop(li *loopInfo, pre *State, guard string, entryIdx int) 
 		if f.declFrames == nil {
 			f.declFrames = map[*loopInfo]*declFrame{}
 		}
-		f.declFrames[li] = &declFrame{pats: pats, top: pre.Top}
+		f.declFrames[li] = &declFrame{pats: pats, top: pre.Top, autoMaps: autoMaps}
 	} else {
 		pats = f.loopModPats(li, pre)
 	}
